@@ -68,6 +68,59 @@ def run(rep, tier, seed, replay):
         if f == "in" or True:
             # text_exact_compiled: no finding is listed for this property
             rep.violation("oracle", "text_exact_compiled: a glob with invariant text %s (fragment %s)" % (name, f), inp, impl=in_impl, spec=not in_impl, fragment=f)
+    # ---- combinators: any([e]) and any([a, b]) report a text too (invariant only when every member has the same one)
+    if replay is None or "any" in replay["input"]:
+        inv_pool = [k for k in built if P.impl[k].get("text", "").startswith("inv:")]
+        combos = lib.combinator_pairs(P, exprs, built, seed, 700 if tier == "quick" else 7000, pool=inv_pool or None)
+        # members with the SAME invariant text (the only way a pair stays invariant)
+        import random as _r
+        rng = _r.Random(seed + 11)
+        by_text = {}
+        for k in inv_pool:
+            by_text.setdefault(P.impl[k]["text"], []).append(k)
+        same = [rng.sample(v, 2) for v in by_text.values() if len(v) >= 2]
+        extra = h.ask(["A 2 %s %s" % (hexs(exprs[a]), hexs(exprs[b])) for a, b in same])
+        for (a, b), line in zip(same, extra):
+            d = lib.parse_impl_build(line)
+            if d["ok"]:
+                combos.append(([exprs[a], exprs[b]], d))
+        if replay is not None:
+            d = lib.parse_impl_build(h.ask(["A %d %s" % (len(replay["input"]["any"]), " ".join(hexs(e) for e in replay["input"]["any"]))])[0])
+            combos = [(replay["input"]["any"], d)] if d["ok"] else []
+        rep.evaluations += len(combos)
+        mtext = lib.any_model(m, "TA", [ms for ms, _ in combos])
+        inv2 = []
+        for (ms, d), tv in zip(combos, mtext):
+            rep.traces += 1
+            iv = d.get("text", "?")
+            rep.stats["combinator-text:" + iv.split(":")[0]] += 1
+            if iv != tv and not iv.startswith("panic"):
+                rep.stats["correspondence-broken"] += 1
+                rep.violation("correspondence", "combinator: text()", {"any": ms}, impl=iv, model=tv)
+                continue
+            if iv.startswith("inv:"):
+                inv2.append((ms, d))
+                rep.distinct.add("any:" + "|".join(ms))
+        res2 = h.ask(["L %s %s" % (hexs(d["pattern"]), hexs("(?s)^(?-i:%s)$" % rx_escape(unhex(d["text"][4:])))) for ms, d in inv2])
+        frag2 = lib.any_model(m, "F11A", [ms for ms, _ in inv2])
+        for (ms, d), line, f in zip(inv2, res2, frag2):
+            stext = unhex(d["text"][4:])
+            if line == "EQUAL":
+                rep.stats["combinator:invariant-and-singleton"] += 1
+                continue
+            if not line.startswith("DIFF"):
+                rep.stats["dfa-" + line.split()[0]] += 1
+                continue
+            w, in_impl = unhex(line.split()[1]), line.split()[2] == "first"
+            got = h.ask(["MA %s %d %s" % (hexs(w), len(ms), " ".join(hexs(e) for e in ms))])[0].startswith("match")
+            if got != in_impl:
+                rep.stats["witness-not-confirmed"] += 1
+                continue
+            if not in_impl and "K-TEXT-SEPCLASS" in f:
+                rep.stats["invariant-unmatched-sepclass"] += 1
+                continue
+            rep.violation("oracle", "a combinator with invariant text %s (fragment %s)" % ("matches a second path besides its invariant text" if in_impl else "does not match its invariant text", f),
+                          {"any": ms, "path": w, "text": stext}, impl=in_impl, spec=not in_impl, fragment=f)
     # casing hypothesis H, validated on the driver alphabet on every run and over all scalars in the thorough tier
     lo_hi = [(0, 0x3000)] if tier == "quick" else [(a, min(a + 0x8000, 0x110000)) for a in range(0, 0x110000, 0x8000)]
     sweep = h.ask(["CF %d %d" % (a, b) for a, b in lo_hi])
